@@ -309,6 +309,9 @@ def run_clf(case, ctx):
             y = labels[yi]
             Xt = rng.randn(25, 2) * 3
             w = rng.rand(n) + 0.5 if (rs + k) % 3 == 0 else None
+            if (rs + k) % 3 == 1:
+                # one weight for every row, not 1: a penalised learner does not fit the same model with it
+                w = numpy.full(n, [25.0, 0.04][(rs + k) % 2])
             for learner, new, margin in learners:
                 cfg = {"labels": lname, "k": k, "random_state": rs, "learner": learner, "weighted": w is not None}
                 K = "C13/classifier/"
